@@ -50,6 +50,14 @@ package posix
 //@   at-return {C01} [head-reports-the-length-get-serves] when err == nil && input.PartNumber == nil :: ensures ret0.ContentLength != nil \
 //@        && *ret0.ContentLength == size && (called("fs.FileInfo.IsDir") && result("fs.FileInfo.IsDir", 0) ==> size == 0)
 
+// ---- C01: every user-metadata attribute that can be read is handed back, whatever its value (also the empty one) ----
+//@ func isValidMeta
+//@   pure
+//@ func (*Posix) loadObjectMetaData
+//@   loop 1 iteration ensures {C01} [a-readable-user-metadata-attribute-is-handed-back] isValidMeta(e) && called("meta.MetadataStorer.RetrieveAttribute") \
+//@        && arg("meta.MetadataStorer.RetrieveAttribute", 3) == e && result("meta.MetadataStorer.RetrieveAttribute", 1) == nil \
+//@        ==> called("strings.TrimPrefix") && arg("strings.TrimPrefix", 0) == e && in(result("strings.TrimPrefix", 0), m)
+
 // ---- C10: retention overwrite rules ---------------------------------------------------
 // The retention attribute of an object version is (re)written only when none exists yet, or the
 // existing one is not COMPLIANCE and, if GOVERNANCE, the caller's bypass was granted. (The gateway
